@@ -55,7 +55,14 @@ func (e *seqEnv) Event(kind, detail string) uint64 {
 
 func (c C19) Run(t *tape.Tape, opt core.RunOpt) (res core.Result) {
 	env := &seqEnv{}
-	w, err := workload.NewSubWorld(env)
+	sdl := workload.SubSDL
+	if t.Bool(1, 4) {
+		// the subscription type is named through a schema block (and a type
+		// called Subscription that is not the subscription type exists)
+		sdl = workload.SubSDLNamed
+		res.Count("probe_subscription_type_named_by_schema_block", 1)
+	}
+	w, err := workload.NewSubWorldSDL(env, sdl)
 	if err != nil {
 		res.Fatal = "cannot load the subscription schema: " + err.Error()
 		return
@@ -69,7 +76,15 @@ func (c C19) Run(t *tape.Tape, opt core.RunOpt) (res core.Result) {
 	} else if t.Bool(1, 4) {
 		// a list-typed subscription field: every event is a batch
 		w.ListEvents = true
+	} else if t.Bool(1, 4) {
+		// a leaf-typed subscription field (Time / enum / list of Int)
+		w.Leaf = 1 + t.Draw(3)
+		res.Count("probe_leaf_typed_subscription_field", 1)
 	}
+	// the resolver keeps the Subscription object of a subscriber and hands it
+	// back when that subscriber subscribes again after it was removed
+	w.ReuseSub = t.Bool(1, 4)
+	var ever []int
 	topics := []string{"a", "b", "c"}
 	topic := func() string {
 		if t.Bool(1, 6) {
@@ -102,7 +117,32 @@ func (c C19) Run(t *tape.Tape, opt core.RunOpt) (res core.Result) {
 	for i := 0; i < nops; i++ {
 		env.log = env.log[:0]
 		switch k := t.Draw(10); {
-		case k < 4 && len(live) > 0 && t.Bool(1, 6): // the same subscriber object subscribes once more
+		case k < 4 && w.ReuseSub && len(ever) > len(live) && t.Bool(1, 3): // a removed subscriber subscribes again
+			var gone []int
+			for _, sid := range ever {
+				isLive := false
+				for _, l := range live {
+					if l == sid {
+						isLive = true
+					}
+				}
+				if !isLive {
+					gone = append(gone, sid)
+				}
+			}
+			if len(gone) == 0 {
+				break
+			}
+			sid := gone[t.Draw(len(gone))]
+			out := w.Subscribe(sid)
+			hist = append(hist, fmt.Sprintf("subscribe again after removal (sub %d; the resolver hands back the Subscription object it kept) -> %s", sid, out))
+			if out != `{"data":null}` {
+				fail("subscribe_failed", "subscription request of subscriber %d returned %s", sid, out)
+				return
+			}
+			live = append(live, sid)
+			res.Count("probe_removed_subscriber_subscribes_again_with_kept_object", 1)
+		case k < 4 && len(live) > 0 && !w.ReuseSub && t.Bool(1, 6): // the same subscriber object subscribes once more
 			sid := live[t.Draw(len(live))]
 			out := w.Subscribe(sid)
 			hist = append(hist, fmt.Sprintf("subscribe again (sub %d: one subscriber object behind another registry entry) -> %s", sid, out))
@@ -146,6 +186,7 @@ func (c C19) Run(t *tape.Tape, opt core.RunOpt) (res core.Result) {
 				return
 			}
 			live = append(live, sb.ID)
+			ever = append(ever, sb.ID)
 		case k < 8: // publish
 			tp := topic()
 			n := nextEv
